@@ -30,7 +30,7 @@ def seal(b, sym, spelling, nested):
             r = b.run("create", root=c, h=["md5"])
             b.require(r.exit == 0, "setup-create", "%s %s" % (c, r))
             b.restamp(c)
-    r = b.run("create", h=["md5", "c4"], i=["*.tmp"], **rootarg)
+    r = b.run("create", h=["md5", "c4"], i=["*.tmp", "d/e/f.txt", "/d/Reel"], **rootarg)
     b.require(r.exit == 0 and r.exc is None, "create-exit-0", "%s %s" % (rootarg, r))
     r = b.run("create", h=["md5"], **rootarg)
     b.require(r.exit == 0 and r.exc is None, "create-exit-0", "second: %s %s" % (rootarg, r))
